@@ -692,6 +692,88 @@ def rule_r5(chk, p, t):
     r.guard(cr.qualname, four)
 
 
+def rule_r6(chk, p, t):
+    from rsa.cfg import cfg_of
+
+    r = chk.rule(
+        "C07.R6",
+        "the id -> row / column maps are the enumeration of the id lists",
+        4,
+        "decisions are made on matrices whose rows / columns follow `target_list` / `sensor_list`, and are carried out and "
+        "reported through `target_indices` / `sensor_indices`: a tasking is executed against the target it was decided for "
+        "only if, whenever a list changes (add / remove / sort), the map is again {id: position in the list}.  Every method "
+        "of the engine classes that modifies a list passes, on every path to its exit, a full rebuild - `self.X_indices = "
+        "{id: i for i, id in enumerate(self.X_list)}`, directly or through a helper method.  An incremental update is "
+        "undecided, except the one shape that is certainly wrong: positions taken from `enumerate(list[start:])` without "
+        "`start=start` (the renumbering restarts at zero)",
+        "the contents of the lists",
+    )
+    eng = p.cls("resonaate.tasking.engine.engine_base.TaskingEngine")
+    classes = [eng] + list(p.subclasses(eng))
+    pairs = {"target_list": "target_indices", "sensor_list": "sensor_indices"}
+    MUT = {"append", "remove", "sort", "insert", "pop", "extend", "clear", "reverse"}
+
+    def rebuilds(m, lst, idx, depth=0):
+        """statement-level AST nodes of `m` that fully rebuild `idx` from `lst` (own statements or helper calls)."""
+        out = []
+        for n in walk_no_nested(m.node):
+            if isinstance(n, (ast.Assign, ast.AnnAssign)) and unparse(n.targets[0] if isinstance(n, ast.Assign) else n.target) == f"self.{idx}" and n.value is not None:
+                v = n.value
+                if isinstance(v, ast.DictComp) and len(v.generators) == 1 and not v.generators[0].ifs:
+                    g = v.generators[0]
+                    if isinstance(g.iter, ast.Call) and call_name(g.iter) == "enumerate" and len(g.iter.args) == 1 and not g.iter.keywords and unparse(g.iter.args[0]) == f"self.{lst}" and isinstance(g.target, ast.Tuple) and len(g.target.elts) == 2:
+                        i, e = (x.id if isinstance(x, ast.Name) else None for x in g.target.elts)
+                        if unparse(v.key) == e and unparse(v.value) == i:
+                            out.append(n)
+            if isinstance(n, ast.Call) and isinstance(n.func, ast.Attribute) and isinstance(n.func.value, ast.Name) and n.func.value.id == "self" and depth < 2:
+                callee = p.lookup_method(m.cls, n.func.attr)
+                if callee is not None and callee is not m:
+                    ccfg = cfg_of(callee)
+                    rb = rebuilds(callee, lst, idx, depth + 1)
+                    ids = [ccfg.node_of(x).id for x in rb]
+                    if ids and ccfg.must_pass(ccfg.exit.id, via_nodes=ids):
+                        out.append(n)
+        return out
+
+    n_sites = 0
+    for ci in classes:
+        for m in ci.methods.values():
+            if m.name == "__init__":
+                continue
+            cfg = cfg_of(m)
+            for lst, idx in pairs.items():
+                muts = [c for c in walk_no_nested(m.node) if isinstance(c, ast.Call) and isinstance(c.func, ast.Attribute) and c.func.attr in MUT and unparse(c.func.value) == f"self.{lst}"]
+                muts += [a for a in walk_no_nested(m.node) if isinstance(a, (ast.Assign, ast.AugAssign)) and any(unparse(x) == f"self.{lst}" or (isinstance(x, ast.Subscript) and unparse(x.value) == f"self.{lst}") for x in (a.targets if isinstance(a, ast.Assign) else [a.target]))]
+                if not muts:
+                    continue
+                rb_ids = [cfg.node_of(x).id for x in rebuilds(m, lst, idx)]
+                for mu in muts:
+                    n_sites += 1
+                    cons = f"{m.qualname}:{lst}@{unparse(mu)[:30]}"
+                    node = cfg.node_of(mu)
+                    if rb_ids and cfg.must_pass(cfg.exit.id, via_nodes=rb_ids, start=node.id):
+                        r.ok(cons, f"followed on every path by the full rebuild of {idx}", m.loc(mu))
+                        continue
+                    # the one certainly wrong incremental shape
+                    wrong = None
+                    scope = [m] + [c for c in (p.lookup_method(m.cls, x.func.attr) for x in walk_no_nested(m.node) if isinstance(x, ast.Call) and isinstance(x.func, ast.Attribute) and isinstance(x.func.value, ast.Name) and x.func.value.id == "self") if c is not None]
+                    for f in scope:
+                        for lp in ast.walk(f.node):
+                            if isinstance(lp, (ast.For, ast.comprehension)) and isinstance(lp.iter, ast.Call) and call_name(lp.iter) == "enumerate" and lp.iter.args and isinstance(lp.iter.args[0], ast.Subscript) and isinstance(lp.iter.args[0].slice, ast.Slice) and lp.iter.args[0].slice.lower is not None:
+                                has_start = len(lp.iter.args) > 1 or any(k.arg == "start" for k in lp.iter.keywords)
+                                if not has_start:
+                                    wrong = (f, lp)
+                    if wrong is not None:
+                        f, lp = wrong
+                        r.violation(cons, f"index-offset-lost:{m.name}:{f.name}", f"after `{unparse(mu)[:50]}` the map {idx} is patched by {f.name}, which numbers `{unparse(lp.iter)[:60]}` from ZERO although the slice starts at `{unparse(lp.iter.args[0].slice.lower)}`: the entries behind the removed one get the positions 0, 1, ... instead of their positions in the list, so decisions are carried out against other targets / sensors than they were made for", f.loc(lp.iter))
+                    elif not rb_ids and not any(idx in unparse(x) for x in walk_no_nested(m.node) if isinstance(x, (ast.Assign, ast.AugAssign, ast.Call))):
+                        r.violation(cons, f"index-not-maintained:{m.name}:{idx}", f"`{unparse(mu)[:50]}` changes {lst} and {m.name} does not touch {idx}: the map no longer gives positions in the list", m.loc(mu))
+                    else:
+                        r.undecided(cons, f"after `{unparse(mu)[:40]}` the map {idx} is maintained incrementally (no full rebuild on every path): not decided", m.loc(mu))
+    if n_sites < 4:
+        r.error("sites", f"only {n_sites} list modifications found (8 confirmed by hand: add / remove x sort for targets and sensors)")
+
+
 def run(chk, p, t):
     chk.explanation = (
         "Static decision of structural necessary conditions of C07: (R1) the only public decision path ends in "
@@ -703,7 +785,7 @@ def run(chk, p, t):
         "equivariance under relabelling, metric values."
     )
     chk.assumptions += ["scipy.optimize.linear_sum_assignment returns an optimal assignment of the matrix it is given", "numpy `&` on boolean arrays is element-wise AND"]
-    for fn in (rule_r1, rule_r2, rule_r3, rule_r4, rule_r5):
+    for fn in (rule_r1, rule_r2, rule_r3, rule_r4, rule_r5, rule_r6):
         rid = "C07.R" + fn.__name__[-1]
         if not chk.wants(rid):
             continue
